@@ -191,6 +191,7 @@ class World:
         D = self.D
         self.seq = 0
         self._h = hashlib.sha256()
+        self._sem = hashlib.sha256()   # clock-independent digest: calls (x, y, sd) and result
         self.tail = []            # last events, human readable
         self.n_events = 0
         self.violations = []      # dicts
@@ -312,6 +313,15 @@ class World:
     def digest(self):
         return self._h.hexdigest()
 
+    def sem(self, *fields):
+        out = []
+        for f in fields:
+            _enc(f, out)
+        self._sem.update(b"|".join(out) + b"\n")
+
+    def sem_digest(self):
+        return self._sem.hexdigest()
+
     def probe(self, name, n=1):
         self.probes[name] = self.probes.get(name, 0) + n
 
@@ -402,6 +412,7 @@ class World:
         if fk is not None:
             self.fired("target:" + fk)
             self.ev("target_fault", k, x, fk, phase)
+            self.sem("fault", k, x, fk)
             self.calls.append(dict(k=k, x=x, u=u, y=None, sd=None, dur=dur, phase=phase,
                                    valid=False, fault=fk))
             return self._do_target_fault(fk, x)
@@ -414,6 +425,7 @@ class World:
         self.calls.append(dict(k=k, x=x, u=u, y=yobs, sd=sd, dur=dur, phase=phase,
                                valid=True, ytrue=ytrue))
         self.ev("target_call", k, x, yobs, sd, dur, phase)
+        self.sem("call", k, x, yobs, sd)
         if self.specified:
             return (yobs, sd if sd is not None else 1.0)
         return yobs
@@ -749,49 +761,63 @@ def _make_filter_wrapper(orig):
     return contraints_check
 
 
-def _check_filter(w, U, lb, ub, tol_mesh, X_logged, proj, out):
-    phase = w.cur_phase()
+def filter_problems(U, lb, ub, tol_mesh, X_logged, proj, out, feas_rows=None):
+    """Pure oracle on one call of the candidate filter.
+
+    Returns (problems, hits): problems = list of (cls, msg, detail); hits = output
+    rows that coincide with a logged point after rounding to tol_mesh/2."""
+    problems = []
     out = np.atleast_2d(np.asarray(out, dtype=float))
+    hits = []
     if out.size == 0:
-        w.probe("filter_empty_out")
-        w.ev("filter", phase, U.shape[0], 0)
-        return
+        return problems, hits
     U2 = np.atleast_2d(U)
-    # inside the box it was filtered against
     if not (np.all(out >= lb) and np.all(out <= ub)):
-        w.violate("C17", "filter-outside-box", "candidate filter returned a point outside the box it filtered against",
-                  phase=phase, proj=proj)
-    # each one a (projected) input row
-    if proj:
-        src = np.maximum(np.minimum(U2, ub), lb)
-    else:
-        src = U2
+        problems.append(("filter-outside-box", "candidate filter returned a point outside the box it filtered against", {}))
+    src = np.maximum(np.minimum(U2, ub), lb) if proj else U2
     src_set = {r.tobytes() for r in np.ascontiguousarray(src + 0.0)}
     rows = [r.tobytes() for r in np.ascontiguousarray(out + 0.0)]
     if any(r not in src_set for r in rows):
-        w.violate("C17", "filter-invented-row", "candidate filter returned a row that is not a (projected) input row",
-                  phase=phase)
+        problems.append(("filter-invented-row", "candidate filter returned a row that is not a (projected) input row", {}))
     if len(set(rows)) != len(rows):
-        w.violate("C17", "filter-duplicates", "candidate filter returned duplicate rows", phase=phase, n=len(rows))
-    # feasibility
-    if w.violation_fn is not None and w.b is not None:
-        X = w.b.var_transf.inverse_transf(out)
-        bad = [i for i in range(X.shape[0]) if w.violation_fn(X[i]) > 0]
-        if bad:
-            w.violate("C17", "filter-infeasible", "candidate filter returned an infeasible point",
-                      phase=phase, x=X[bad[0]])
-    # already evaluated (rounded to tol_mesh/2)
+        problems.append(("filter-duplicates", "candidate filter returned duplicate rows", {"n": len(rows)}))
+    if feas_rows is not None:
+        bad = feas_rows(out)
+        if bad is not None:
+            problems.append(("filter-infeasible", "candidate filter returned an infeasible point", {"x": bad}))
     if X_logged.shape[0] > 0:
         tol = tol_mesh / 2.0
         logged = {r.tobytes() for r in np.ascontiguousarray(np.round(X_logged / tol) + 0.0)}
         r1 = np.ascontiguousarray(np.round(out / tol) + 0.0)
-        hit = [i for i in range(out.shape[0]) if r1[i].tobytes() in logged]
-        if hit:
-            for i in hit:
-                w.filter_passed_logged.add(np.ascontiguousarray(out[i]).tobytes())
-            w.violate("C17", "filter-already-evaluated",
-                      "candidate filter let through a point that coincides (within tol_mesh/2) with a logged point",
-                      phase=phase, n_hit=len(hit), n_out=out.shape[0], u=out[hit[0]])
+        hits = [i for i in range(out.shape[0]) if r1[i].tobytes() in logged]
+        if hits:
+            problems.append(("filter-already-evaluated",
+                             "candidate filter let through a point that coincides (within tol_mesh/2) with a logged point",
+                             {"n_hit": len(hits), "n_out": out.shape[0], "u": out[hits[0]]}))
+    return problems, hits
+
+
+def _check_filter(w, U, lb, ub, tol_mesh, X_logged, proj, out):
+    phase = w.cur_phase()
+    out = np.atleast_2d(np.asarray(out, dtype=float))
+    U2 = np.atleast_2d(U)
+    if out.size == 0:
+        w.probe("filter_empty_out")
+        w.ev("filter", phase, U2.shape[0], 0)
+        return
+    feas = None
+    if w.violation_fn is not None and w.b is not None:
+        def feas(rows):
+            X = w.b.var_transf.inverse_transf(rows)
+            for i in range(X.shape[0]):
+                if w.violation_fn(X[i]) > 0:
+                    return X[i]
+            return None
+    problems, hits = filter_problems(U2, lb, ub, tol_mesh, X_logged, proj, out, feas)
+    for i in hits:
+        w.filter_passed_logged.add(np.ascontiguousarray(out[i]).tobytes())
+    for cls, msg, detail in problems:
+        w.violate("C17", cls, msg, phase=phase, proj=proj, **detail)
     if U2.shape[0] > out.shape[0]:
         w.probe("filter_dropped_some")
     w.ev("filter", phase, U2.shape[0], out.shape[0], out)
@@ -1057,6 +1083,12 @@ def _make_es_wrapper(orig):
             if zs.size > 0:
                 if not (np.all(Us >= lbs) and np.all(Us <= ubs)):
                     w.violate("C18", "es-candidate-outside-box", "ES evaluated the acquisition outside the mesh-rounded box")
+                if w.violation_fn is not None:
+                    Xs = w.b.var_transf.inverse_transf(Us)
+                    nbad = sum(1 for i in range(Xs.shape[0]) if w.violation_fn(Xs[i]) > 0)
+                    if nbad:
+                        w.violate("C18", "es-candidate-infeasible", "ES ranked candidates that did not survive feasibility filtering",
+                                  n_infeasible=nbad, n=int(Xs.shape[0]))
                 zmin = np.nanmin(zs) if np.any(np.isfinite(zs)) else np.nan
                 zz = float(np.asarray(z).reshape(-1)[0])
                 if np.isfinite(zmin) and not zz == zmin:
